@@ -182,6 +182,19 @@ func runC11(c *eng.Ctx) {
 	})
 	c.SiblingsEqual("R2", "tsdb/chunkenc:HistogramAppender.appendable", "tsdb/chunkenc:HistogramSTAppender.appendable", histRenames, nil)
 	c.SiblingsEqual("R2", "tsdb/chunkenc:FloatHistogramAppender.appendable", "tsdb/chunkenc:FloatHistogramSTAppender.appendable", histRenames, nil)
+	// recode: the chunk is rewritten sample by sample into the new layout; integer and float variants differ only in the bucket encoding
+	insertDiffs := []eng.SiblingDiff{
+		{A: "hOld.PositiveBuckets = insert(hOld.PositiveBuckets, positiveBuckets, positiveInserts, true)", B: "hOld.PositiveBuckets = insert(hOld.PositiveBuckets, positiveBuckets, positiveInserts, false)", Why: "integer buckets are deltas, float buckets absolute"},
+		{A: "hOld.NegativeBuckets = insert(hOld.NegativeBuckets, negativeBuckets, negativeInserts, true)", B: "hOld.NegativeBuckets = insert(hOld.NegativeBuckets, negativeBuckets, negativeInserts, false)", Why: "integer buckets are deltas, float buckets absolute"},
+	}
+	recRenames := append([][2]string{{`\bfhOld\b`, "hOld"}}, histRenames...)
+	c.SiblingsEqual("R2", "tsdb/chunkenc:HistogramAppender.recode", "tsdb/chunkenc:FloatHistogramAppender.recode", recRenames, insertDiffs)
+	c.SiblingsEqual("R2", "tsdb/chunkenc:HistogramSTAppender.recodeST", "tsdb/chunkenc:FloatHistogramSTAppender.recodeST", recRenames, insertDiffs)
+	c.SiblingsEqual("R2", "tsdb/chunkenc:HistogramSTAppender.appendHistogramST", "tsdb/chunkenc:FloatHistogramSTAppender.appendFloatHistogramST", histRenames, nil)
+	c.SiblingsEqual("R2", "tsdb/chunkenc:HistogramAppender.appendableGauge", "tsdb/chunkenc:HistogramSTAppender.appendableGauge", histRenames, nil)
+	c.SiblingsEqual("R2", "tsdb/chunkenc:HistogramSTAppender.appendableGauge", "tsdb/chunkenc:FloatHistogramSTAppender.appendableGauge", histRenames, []eng.SiblingDiff{
+		{A: "if value.IsStaleNaN(a.sum) {", B: "if value.IsStaleNaN(a.sum.value) {", Why: "float appender keeps the sum as an xor value"},
+	})
 	c.SiblingsEqual("R2", "tsdb/chunkenc:HistogramAppender.appendableGauge", "tsdb/chunkenc:FloatHistogramAppender.appendableGauge", histRenames, []eng.SiblingDiff{
 		{A: "if value.IsStaleNaN(a.sum) {", B: "if value.IsStaleNaN(a.sum.value) {", Why: "float appender keeps the sum as an xor value"},
 	})
